@@ -104,6 +104,8 @@ impl Freezer {
                 return Ok(ret);
             }
 
+            #[cfg(ckb_verif)]
+            verif_point("append", number);
             if let Some(block) = get_block_by_number(number) {
                 if let Some(ref header) = guard.tip
                     && header.hash() != block.header().parent_hash()
@@ -135,6 +137,8 @@ impl Freezer {
                 break;
             }
         }
+        #[cfg(ckb_verif)]
+        verif_point("sync", threshold);
         guard.files.sync_all().map_err(internal_error)?;
         Ok(ret)
     }
@@ -173,5 +177,38 @@ impl Freezer {
             inner.tip = Some(block.header().into_view());
         }
         Ok(())
+    }
+}
+
+#[cfg(ckb_verif)]
+impl Freezer {
+    /// verification hook (off unless built with `--cfg ckb_verif`), see [`verif_point`]
+    pub fn verif_point(&self, tag: &str, n: u64) {
+        verif_point(tag, n)
+    }
+}
+
+/// verification hook (off unless built with `--cfg ckb_verif`): every step of a freeze pass announces itself
+/// *before* it runs; the announcement is appended to the ndjson file `$VERIF_FREEZE_EVENTS` and the process
+/// aborts at the `$VERIF_FREEZE_CRASH_AT`-th announcement (1-based), i.e. with that step not executed.
+#[cfg(ckb_verif)]
+pub(crate) fn verif_point(tag: &str, n: u64) {
+    use std::io::Write;
+    static COUNT: AtomicU64 = AtomicU64::new(0);
+    let k = COUNT.fetch_add(1, Ordering::SeqCst) + 1;
+    let crash = std::env::var("VERIF_FREEZE_CRASH_AT")
+        .ok()
+        .and_then(|s| s.parse::<u64>().ok())
+        == Some(k);
+    if let Ok(path) = std::env::var("VERIF_FREEZE_EVENTS")
+        && let Ok(mut f) = OpenOptions::new().create(true).append(true).open(path)
+    {
+        let _ = writeln!(
+            f,
+            "{{\"pt\":{k},\"tag\":\"{tag}\",\"n\":{n},\"crash\":{crash}}}"
+        );
+    }
+    if crash {
+        std::process::abort();
     }
 }
